@@ -54,7 +54,32 @@ func inflateCases(r *core.Rand, tier string, emit func([]string)) {
 	}
 }
 
+// redirectCases: every status in [300, 400) and its neighbours x Location absent / relative / absolute
+// (and repeated): the entry's redirectURL is the Location of exactly the 3xx responses.
+func redirectCases(r *core.Rand, emit func([]string)) {
+	for _, code := range []int{299, 300, 301, 302, 303, 304, 305, 306, 307, 308, 310, 399, 400} {
+		var ops []string
+		for _, loc := range [][]string{nil, {"/rel?x=1"}, {"http://h.example/next"}, {"//other.example/p", "/second"}} {
+			s := &msggen.Spec{Req: false, Code: code, Framing: "cl", CT: "text/plain", Payload: []byte("moved")}
+			if code == 304 {
+				s.Framing, s.Payload = "cl0", nil
+			}
+			for _, l := range loc {
+				s.Extra = append(s.Extra, msggen.KV{K: "Location", V: l})
+			}
+			a := s.Abs()
+			if a.Status == strconv.Itoa(code)+" " {
+				a.Status = strconv.Itoa(code) + " Status"
+			}
+			core.Count("redirect:directed")
+			ops = append(ops, strings.Join(append([]string{"hres", r.Pick("all", "none"), "p", c15.InflatedTok(a)}, a.Tokens()...), " "))
+		}
+		emit(ops)
+	}
+}
+
 func (P) Gen(r *core.Rand, tier string, emit func([]string)) {
+	redirectCases(r.Fork(), emit)
 	inflateCases(r.Fork(), tier, emit)
 	n := 300
 	if tier == "thorough" {
